@@ -3,6 +3,7 @@ behaviours replayed on the real population code (binding B2), and real construct
 the trace specifications Trace_Speciation / Trace_Quota (binding B1)."""
 import json
 import os
+import re
 
 from pipelines import pipeline, cat_files, spec_must_hold, write_lines, replay_cases, B2
 from vlib import Infra
@@ -108,8 +109,10 @@ def c08(ctx, replay):
             raise Infra("Trace_Speciation rejected line %s of a recorded trace but the re-recorded run was accepted "
                         "(unreproduced counterexample)" % idx)
         idx, ev = _trace_violation(ctx, r2, trace2, "Inv_C08")
-        what = ("recorded speciate call #%s (%s) violates the assignment rule: %s; offending organism index %s" % (
-            idx, (ev or {}).get("src"), r2.violated, r2.last_state.get("verdict", "?")))
+        m = re.search(r"at \|-> (\d+)", r2.last_state.get("verdict", ""))
+        what = ("recorded speciate call #%s (%s) is rejected by Trace_Speciation (%s): organism #%s of the call is not in "
+                "the nearest compatible species / was not entitled to found one / ids are not fresh" % (
+                    idx, (ev or {}).get("src"), r2.violated, m.group(1) if m else "?"))
         ctx.violation(what, "speciation-trace %s" % (ev or {}).get("src"),
                       {"kind": "speciation-trace", "seed": seed, "scenarios": scen, "epochs": epochs,
                        "line": idx, "event": ev if ev and len(json.dumps(ev)) < 20000 else None,
